@@ -38,7 +38,7 @@ RULE = (
     'as one random linear extension of the only constraints the DSL imposes (create before use, producer command before '
     'consumer command); random always_run flags and failing sets. A case is non-trivial when it has >= 2 jobs and >= 1 '
     'edge; distinct by (edge list with kinds, always_run vector, failing vector, creation order). quick 150 pipelines, '
-    'thorough 16 x 300.'
+    'thorough 6 shards x 800.'
 )
 ASSUMPTIONS = [
     '/bin/bash and /bin/sh execute `echo >> file`, `read < file`, `exit N` faithfully; appends of < 100 bytes to the shared log by sequential subprocesses are ordered',
@@ -46,13 +46,13 @@ ASSUMPTIONS = [
     'Job._job_id is the job number the property speaks about',
 ]
 TRUSTED_BASE = ['bash', 'the monitor\'s least-fixpoint skip model (20 lines)']
-SHARDS = {'quick': 1, 'thorough': 16}
+SHARDS = {'quick': 1, 'thorough': 6}  # fork/exec-bound: 16 concurrent shards cost 3x the CPU of 6 for the same 4800 pipelines in this sandbox
 TIMEOUT = {'quick': 600, 'thorough': 1800}
 
 
 def FLOORS(tier):
     # about half of the minimum over seeds 0..9 of what a complete quick run (150 pipelines) observes;
-    # thorough = 16 shards x 300 pipelines = 32 x quick
+    # thorough = 6 shards x 800 pipelines = 32 x quick
     k = 1 if tier == 'quick' else 20
     return {
         'evaluations': 100 * k,
@@ -463,7 +463,7 @@ def run(ctx):
     # Backend.__del__ runs the event loop; a cyclic-GC pass in the middle of a run would make it complain
     # ("event loop is already running"), so collect between cases only
     gc.disable()
-    N = ctx.pick(150, 300)  # ~0.05 s per pipeline on an idle core (fork/exec bound: several times slower on a loaded machine)
+    N = ctx.pick(150, 800)  # ~0.05 s per pipeline on an idle core (fork/exec bound: several times slower on a loaded machine)
     ctx.set_time_budget(ctx.pick(480, 1500))  # machine-load safety net below the watchdog; the floors decide whether enough was seen
     for i, rng in ctx.cases(N):
         case = gen_case(rng)
